@@ -74,6 +74,12 @@ def proj_disp_c06(i, m):
     return _pick(i[:3], [3, 5]), _pick(m[:3], [3, 5])
 
 
+def proj_disp_c04(i, m):
+    # what every route function was handed: the selected route's path and the parameter map of its "saw:" event
+    saw = lambda l: [[e for e in o[5] if e.startswith(b'saw:')] for o in l]
+    return [saw(l) for l in i[:3]], [saw(l) for l in m[:3]]
+
+
 def proj_disp_c07(i, m):
     # Content-Encoding header, decoded body, decodes-completely flag
     ce = lambda l: [[[h[1] for h in o[2] if h[0] == b'Content-Encoding'], o[3], o[4]] for o in l]
@@ -214,9 +220,9 @@ PROPS = {
                     'differential correspondence on status / Allow set / invocation count / panic.',
     ),
     'C04': dict(
-        domains=[dict(name='route', quick=32000, thorough=800000)],
+        domains=[dict(name='route', quick=32000, thorough=800000), dict(name='disp', quick=4000, thorough=100000)],
         verdicts=['c04_*'],
-        project={'route': proj_route_c04},
+        project={'route': proj_route_c04, 'disp': proj_disp_c04},
         prop_files=['props/C04.v'],
         trivial_classes=('404', '405', '415', '406'),
         rule=RULE_ROUTE + '; for C04 only invoked requests count as non-trivial', trusted_base=TB_ROUTING,
